@@ -876,6 +876,7 @@ type c36Gate struct {
 	noViewFwdDep   bool // C36-view-order: no view selecting from a view with a later name
 	noBlockTrigger bool // C36-trigger-block-no-delimiter: no BEGIN…END trigger bodies
 	noEnumDefault  bool // C36-enum-set-default: no DEFAULT on ENUM/SET columns
+	noViewComment  bool // C36-view-trailing-comment: no view body ending in a "-- comment"
 	excluded       int
 }
 
@@ -1198,6 +1199,10 @@ func c36GenViews(rt *rapid.T, db *c36DB, g *c36Gate) {
 			fmt.Sprintf("SELECT COUNT(*) AS n, 'a;b' AS s /* c */ FROM %s", c36QuoteIdent(t.name)),
 			fmt.Sprintf("SELECT %s AS `x y`, '\\'' AS q FROM %s -- tail", c36QuoteIdent(c.name), c36QuoteIdent(t.name)),
 		}[rapid.IntRange(0, 3).Draw(rt, l+".body")]
+		if g.noViewComment && strings.HasSuffix(body, "-- tail") {
+			g.excluded++
+			body = strings.TrimSuffix(body, " -- tail")
+		}
 		db.views = append(db.views, c36View{name: names[vi], sql: fmt.Sprintf("CREATE VIEW %s AS %s", c36QuoteIdent(names[vi]), body)})
 	}
 }
@@ -1351,7 +1356,7 @@ func (db *c36DB) buildScript() string {
 		}
 	}
 	for _, v := range db.views {
-		b.WriteString(v.sql + ";\n")
+		b.WriteString(v.sql + "\n;\n") // the newline ends a trailing "-- comment" of the view body
 	}
 	for _, tr := range db.triggers {
 		if tr.block {
